@@ -39,15 +39,21 @@ CHECKS = {
                   "itself; Publish with or without rollover keeps every file name (so 'only appended to' gives that premise); the "
                   "backup opens in every mode (hence passes Open with Check) to a handle with the same live messages and NextOffset as the "
                   "source at the time of the call, and by the C03/C04/C09/C10 theorems answers queries alike; the call changes nothing "
-                  "in the source but lazily rebuilt index files. The skip rule is safe on append-only files (equal length and prefix give "
-                  "equal content - a lemma); not modelled: file copy mechanics (fsync, mtime, partial copies) - exercised only by the runs "
-                  "(same-size rewrites within one mtime tick are out of the stated precondition). Tied to /repo by seeded histories with Backup into fresh and reused directories after appends "
+                  "in the source but lazily rebuilt index files. Copy mechanics (BackupFiles.v: copyFile on files with content and modification time - a target file whose size "
+                  "and mtime equal the source's is kept, otherwise rewritten and given the source's mtime): as long as every file of the "
+                  "target under a source name is a PREFIX of that source file (an empty target; the result of an earlier Backup of a source "
+                  "that has since only been appended to; whatever a killed Backup leaves: any number of bytes of any file written, that file "
+                  "stamped with the time of the kill), a Backup makes every source file appear in the target with exactly the source's bytes "
+                  "and time, whatever the modification times in the target are (backup_gives_source, backup_after_killed_backup); the "
+                  "premise is maintained by every Backup while the source is only appended to. Not modelled: fsync of the copies "
+                  "(same-size rewrites within one mtime tick are out of the stated precondition). Tied to /repo by Segment.Backup of single "
+                  "segments into targets holding nothing / prefixes / same-size other content under chosen mtimes, compared with copy_file, and by seeded histories with Backup into fresh and reused directories after appends "
                   "(rollovers, reopen, both versions): the target's file listing, a full observation of the opened backup (Consume, Get, "
                   "key/time lookups, Stat, NextOffset) and Check on every copied segment are compared with the source's observation at "
                   "the time of the call, with the extracted model (backup_dir is extracted, not re-implemented in the driver), and the "
                   "source's own observation before/after.",
-             ref='6/C20', technique='Coq proof (backup = source directory; reopen theorem) + differential correspondence',
-             note="The byte-copy mechanics (fsync, size/mtime skip) are not modelled. " + COMMON_NOTE),
+             ref='6/C20', technique='Coq proof (backup = source directory; reopen theorem; size-and-mtime skip rule on prefix targets, killed backups) + differential correspondence',
+             note="fsync of the copied files is not modelled. " + COMMON_NOTE),
  'C15': dict(text="Proof (Coq): a Hoare rule for the helpers' loop `for offset := OffsetOldest; offset < max && cond; Consume(offset, 32)` "
                   "that holds for every way Consume cuts the log into batches (built on: Consume returns no message only when nothing is "
                   "left); with it, on every state satisfying Inv: FindByOffset selects exactly the live offsets below the bound; FindByCount "
@@ -90,8 +96,9 @@ CHECKS = {
                   "ghost bound T (largest time published so far): index files are exactly the derived ones (KInv) and their timestamps "
                   "equal the message times (TS); the newest-to-oldest walk with its before-start/after-end hand-off equals 'first "
                   "message at or after ts of the concatenation' for every segmentation; the in-segment lower bound is characterised for "
-                  "arrays of any length. The read-only handle of an empty directory is excluded from the history theorem (it has no "
-                  "messages). The known finding F11 (pre-1970 times) is a theorem of the model too (a vm_compute witness). Tied to /repo "
+                  "arrays of any length. The read-only handle of an empty directory is a reachable state of these histories too and is "
+                  "covered (C10_on_all_monotone_histories). OffsetByTime (the lookup, then offset and time of what it found) is a function "
+                  "of the model with its own theorem: offset and time of the first live message not before ts. The known finding F11 (pre-1970 times) is a theorem of the model too (a vm_compute witness). Tied to /repo "
                   "by seeded histories with monotone times (ties, equal runs, jumps, tiny rollover sizes, deletes, reopen with index "
                   "removal): GetByTime/OffsetByTime for every t in [min-2, max+2] after every step, compared with the extracted model and "
                   "judged by check_get_by_time; non-monotone histories are compared with the model only.",
@@ -101,7 +108,9 @@ CHECKS = {
                   "returns the live message with the greatest offset whose key is byte-for-byte the argument (nil and empty keys are the "
                   "same byte string), ErrNotFound if none; ConsumeByKey at any offset/maxCount returns a run of the live messages with "
                   "exactly that key at or after the offset, in offset order, none stepped over, at most max(maxCount,1), next = last+1, "
-                  "NextOffset when nothing is left or for OffsetNewest; ErrNoIndex without the key index. KInv is proved to hold on every "
+                  "NextOffset when nothing is left or for OffsetNewest; ErrNoIndex without the key index; OffsetByKey (the lookup, then the "
+                  "offset of what it found - a function of the model, log_offset_by_key) returns the offset of that same message, "
+                  "ErrNotFound exactly when there is none. KInv is proved to hold on every "
                   "state reachable by any history (publishes with rollover, deletes, reads with lazy index rebuilds, close/reopen in any "
                   "mode, index-file removal, Migrate, Recover) that keeps its index options. Tied to /repo by seeded histories over a small "
                   "key alphabet that includes three verified FNV-1a-64 collision pairs and nil/empty keys: GetByKey, OffsetByKey and "
